@@ -5,8 +5,8 @@ import (
 	"time"
 
 	bridgetypes "github.com/tellor-io/layer/x/bridge/types"
-	oracletypes "github.com/tellor-io/layer/x/oracle/types"
 	minttypes "github.com/tellor-io/layer/x/mint/types"
+	oracletypes "github.com/tellor-io/layer/x/oracle/types"
 
 	sdk "github.com/cosmos/cosmos-sdk/types"
 	authtypes "github.com/cosmos/cosmos-sdk/x/auth/types"
